@@ -111,7 +111,7 @@ def name_tree(rng, shape, fancy=False):
             lc[0] += 1
             return (nm('L', lc[0]) if fancy else ('SP%03d' % lc[0] if oma else 'L%d' % lc[0]), ())
         ic[0] += 1
-        me = nm('I', ic[0]) if fancy else 'I%d' % ic[0]
+        me = nm('I', ic[0]) if fancy else ('CL%03d' % ic[0] if (oma and rng.random() < 0.25) else 'I%d' % ic[0])   # some clades named like OMA codes
         return (me, tuple(rec(k) for k in t[1]))
     return rec(shape)
 
@@ -154,6 +154,7 @@ class Ids:
         self.h = 0
         self.last = None
         self.used = set()
+        self.clash = False
     def gene(self, rng=None):
         self.n += 1
         if self.int_ids:
@@ -166,9 +167,13 @@ class Ids:
             g = str(self.n)
             self.used.add(g); self.last = g
             return g
+        if rng is not None and rng.random() < 0.04:
+            return 'g\u00e8ne%d' % self.n          # ids are arbitrary strings: not ASCII here
         return 'g%d' % self.n
     def hog(self):
         self.h += 1
+        if self.clash:
+            return str(1 + (self.h * 7) % 5)        # small integers: the same namespace as the top-level family ids
         return 'S%d' % self.h
 
 def gen_lineage(rng, T, p, ids, P):
@@ -211,7 +216,7 @@ def gen_lineage(rng, T, p, ids, P):
             subs.insert(rng.randint(0, len(subs)), ('ann', e))
     return ('grp', written, hid, label, subs)
 
-DEFAULT_P = dict(loss=0.25, dup=0.3, elide=0.5, subid=0.3, label=0.3, ann=0.25, loft=0.15, unary_trees=0.1, idless_top=0.08, species_split=0.1, dbsplit=0.1, unnamed_root=0.08)
+DEFAULT_P = dict(loss=0.25, dup=0.3, elide=0.5, subid=0.3, label=0.3, ann=0.25, loft=0.15, unary_trees=0.1, idless_top=0.08, species_split=0.1, dbsplit=0.1, unnamed_root=0.08, notes=0.12, wrap=0.1, latin1=0.1, subid_clash=0.15)
 
 def force_written(l):
     return ('grp', True) + tuple(l[2:])
@@ -608,6 +613,7 @@ def make_dataset(rng, T=None, naming=None, nfam=None, P=None, maxleaves=8, int_i
     if int_ids is None:
         int_ids = rng.random() < 0.3
     ids = Ids(int_ids)
+    ids.clash = rng.random() < P.get('subid_clash', 0.0)
     D = Dataset(T, naming)
     internal = [p for p in paths(T) if sub(T, p)[1]]
     if nfam is None:
@@ -667,6 +673,8 @@ def make_dataset(rng, T=None, naming=None, nfam=None, P=None, maxleaves=8, int_i
             D.species.insert(rng.randint(i + 1, len(D.species)), (name, gs[k:]))
             D.meta['species_split'] = name
     D.meta['dbsplit'] = rng.random() < P.get('dbsplit', 0.0)
+    D.meta['style'] = dict(dbsplit=D.meta['dbsplit'], notes=rng.random() < P.get('notes', 0.0), wrap=rng.random() < P.get('wrap', 0.0),
+                           latin1=rng.random() < P.get('latin1', 0.0))
     return D
 
 def deep_chain_dataset(rng, depth=None):
@@ -810,6 +818,25 @@ def split_events(rng, elems, prob=0.7):
         return out
     return rec(elems), n[0]
 
+def single_member_pgs(rng, elems, prob=0.25):
+    """wrap single members of orthologGroups into a paralogGroup of their own (a duplication of which one copy survives
+    in the data, e.g. after the file was cut down to a species subset).  Outside the spelled-history domain (a
+    duplication there has >= 2 copies); pyham loads and re-exports such files.  Returns (elems, count)"""
+    n = [0]
+    def rec(es, top):
+        out = []
+        for e in es:
+            if e[0] == 'og':
+                e = ('og', e[1], e[2], rec(e[3], False))
+            elif e[0] == 'pg':
+                e = ('pg', e[1], rec(e[2], False))
+            if not top and e[0] in ('ref', 'og') and rng.random() < prob:
+                out.append(('pg', None, [e])); n[0] += 1
+            else:
+                out.append(e)
+        return out
+    return rec(elems, True), n[0]
+
 def species_wrap(rng, D, prob=0.35):
     """secondary stream: wrap gene references into species-level groups (TaxRange = species name),
     optionally with an in-paralog of the same species.  Such files are outside the spelled-history
@@ -898,11 +925,16 @@ def xml_elems(es):
 
 DBSPLIT = [False]      # write the genes of a species in two <database> blocks (same meaning; set per dataset by core.load_py)
 
-def orthoxml(species, groups, newlines=True, dbsplit=None):
+def orthoxml(species, groups, newlines=True, dbsplit=None, style=None):
+    """style (all meaning-preserving): dbsplit = genes of a species in two <database> blocks; notes = <notes> elements
+    holding foreign-namespace elements that are CALLED gene / geneRef / property; wrap = attributes separated by line
+    breaks; latin1 = the XML declaration names ISO-8859-1 (for a document handed over as a Python string the declaration
+    is irrelevant)"""
+    style = style or {}
     nl = '\n' if newlines else ''
     if dbsplit is None:
-        dbsplit = DBSPLIT[0]
-    s = '<?xml version="1.0" encoding="UTF-8"?>' + nl
+        dbsplit = DBSPLIT[0] or bool(style.get('dbsplit'))
+    s = '<?xml version="1.0" encoding="%s"?>' % ('ISO-8859-1' if style.get('latin1') else 'UTF-8') + nl
     s += '<orthoXML xmlns="http://orthoXML.org/2011/" version="0.3" origin="verif" originVersion="1">' + nl
     for name, genes in species:
         blocks = [genes[:len(genes) // 2], genes[len(genes) // 2:]] if (dbsplit and len(genes) >= 2) else [genes]
@@ -912,13 +944,34 @@ def orthoxml(species, groups, newlines=True, dbsplit=None):
             for gid, xr in block:
                 s += '<gene id="%s"%s/>' % (xml_escape(gid), ''.join(' %s="%s"' % (k, xml_escape(v)) for k, v in xr)) + nl
             s += '</genes></database>'
+        if style.get('notes'):
+            s += '<notes>curated; see <c:gene xmlns:c="urn:curation" id="ZZ-not-a-gene" protId="zz"/></notes>'
         s += '</species>' + nl
     s += '<scores><scoreDef id="Completeness" desc="x"/></scores>' + nl
     s += '<groups>' + nl
-    for g in groups:
-        s += xml_elems([g]) + nl
+    allrefs = [e[1] for g in groups for e in _flat_refs(g)]
+    for gi, g in enumerate(groups):
+        x = xml_elems([g])
+        if style.get('notes') and g[0] == 'og' and allrefs:
+            other = allrefs[(gi * 7 + 3) % len(allrefs)]
+            note = ('<notes>checked against <c:geneRef xmlns:c="urn:curation" id="%s"/><c:property xmlns:c="urn:curation" '
+                    'name="TaxRange" value="nowhere"/><c:score xmlns:c="urn:curation" id="bootstrap" value="0.5"/></notes>' % xml_escape(other))
+            k = x.rfind('</orthologGroup>')
+            x = x[:k] + note + x[k:]
+        s += x + nl
     s += '</groups>' + nl + '</orthoXML>' + nl
+    if style.get('wrap'):
+        s = s.replace('" ', '"\n')
     return s
+
+def _flat_refs(e):
+    if e[0] == 'ref':
+        return [e]
+    if e[0] == 'og':
+        return [r for x in e[3] for r in _flat_refs(x)]
+    if e[0] == 'pg':
+        return [r for x in e[2] for r in _flat_refs(x)]
+    return []
 
 def newick_named(T, p, naming):
     """Newick text of the subtree at path p with every node labelled by its display name (what ete3 writes with format=8)"""
